@@ -141,8 +141,8 @@ def form_programs():
             yield P(("msw", mk, v), [A.MsgSwitch(mk, v, [(("i", 1), ("s", "one")), (("c", "TWO"), ("l", (("english", "two"),)))],
                                                   ("s", "other")), A.Op("after_op")])
             yield P(("msw-nodefault", mk, v), [A.MsgSwitch(mk, v, [(("i", 1), ("s", "one"))], None)])
-    # routine headers
-    body = [A.Op("r_op")]
+    # routine headers (the body has a jump-carrying op and an op the compiler drops, so that offsets and positions differ)
+    body = [A.If([A.IfBranch(False, [A.Cond("special", False, "debug")], [A.Op("r_then")])]), A.Op("r_op"), A.Ctrl("end")]
     for kind in ("actor", "object", "performer"):
         for target in (("i", 0), ("i", 77), ("c", "TARGET_C")):
             for legacy in (False, True):
